@@ -24,7 +24,7 @@ CHECKS = {
     ),
     "C03": dict(
         engine="storewalk",
-        technique="explicit-state search over reachable header stores + complete 5x5x5x5x3x3 boundary-value product of header fields; every stored row compared with an independent SHA-256d/80-byte serialiser and big.Int work derivation; column immutability checked across every transition and across restart (database.Init on the same file)",
+        technique="explicit-state search over reachable header stores + complete 5x5x5x5x3x3 boundary-value product of header fields; every stored row compared with an independent SHA-256d/80-byte serialiser and big.Int work derivation; column immutability checked across every transition and across restart (database.Init on the same file, and once more with db.prepared_db=true)",
         text="Exhaustive within the bound: every history of <=4/5 headers; every stored header's derived and source fields via SQL dump, service and both JSON endpoints; nothing but header_state changes on any transition; 5625 boundary-valued headers round-trip through Add, SQL and JSON, again after a restart. Field values outside the boundary alphabet are not covered.",
         design="§3 C03",
     ),
@@ -48,20 +48,20 @@ CHECKS = {
     ),
     "C05": dict(
         engine="crashwalk", category="fault_enumeration",
-        technique="exhaustive crash-point and fault enumeration: for every ingestion history (every arrival order of every blueprint within the bound) and every write call on repository.Headers, kill ingestion before that write or make it fail; restart with database.Init on the same file; structural and acknowledged-header checks; redelivery (same order, and every order for N<=3) compared with the reference model. The fail variant is also driven through the real handleHeadersMsg of both sync engines (in-package driver)",
+        technique="exhaustive crash-point and fault enumeration: for every ingestion history (every arrival order of every blueprint within the bound) and every write call on repository.Headers, kill ingestion before that write or make it fail; restart with database.Init on the same file (a second start runs with db.prepared_db=true and must change nothing); structural and acknowledged-header checks; redelivery (same order, and every order for N<=3) compared with the reference model. The fail variant is also driven through the real handleHeadersMsg of both sync engines (in-package driver)",
         text="Exhaustive within the bound: N<=3 all histories x all redelivery orders, N=4 reorganising histories (quick); N=5 reorganising histories (thorough). Each production write is its own SQLite transaction, so the write-call boundaries are exactly the crash states at transaction granularity; torn pages inside a transaction are SQLite's guarantee (trusted).",
         design="§3 C05, §2 E2",
     ),
     "C17": dict(
         engine="crashwalk", category="fault_enumeration",
-        technique="exhaustive enumeration: export->import round trip of every final store of every arrival order of every blueprint within the bound, and every single-field corruption (5 replacement values per cell, row deleted/duplicated, column added/removed, header line removed) of exported files of 2, 4 and 1203 rows, each followed by two further starts on the same database",
+        technique="exhaustive enumeration: export->import round trip of every final store of every arrival order of every blueprint within the bound, and every single-field corruption (5 replacement values per cell, row deleted/duplicated, column added/removed, header line removed) of exported files of 2, 4 and 1203 rows, each followed by two further starts on the same database; every second export finds a stale, longer intermediate CSV in the temp directory (a killed earlier export)",
         text="Exhaustive within the bound (N=3 quick / N=4 thorough stores; corruption at every row of the short chains and at the batch-boundary rows of the long one; checkpoint at the tip and mid-chain). Gzip-level corruption and Postgres are not covered. A duplicated row at/above the checkpoint yields a consistent longer chain and is not required to be refused.",
         design="§3 C17",
     ),
     "C09": dict(
         engine="apiwalk",
-        technique="complete product enumeration on the production gin engine: every route of Engine.Routes() (read at run time) x 10 credential classes x use_auth x debug_profiling x metrics; rejected requests are observed through a statement-recording SQL driver (only the token lookup may run) and table digests; routes outside /api/v1 are matched against the allowed set",
-        text="The space is finite and enumerated completely in both tiers (17 API routes x 10 classes x 8 configurations today; new routes are picked up from the routing table). Tokens in the classes come from a real create/revoke history on the SQL token repository.",
+        technique="complete product enumeration on the production gin engine: every route of Engine.Routes() (read at run time) x 14 credential classes (incl. a token used once and then revoked, SQL-wildcard and case variants of a valid token) x use_auth x debug_profiling x metrics; rejected requests are observed through a statement-recording SQL driver (only the token lookup may run) and table digests; routes outside /api/v1 are matched against the allowed set",
+        text="The space is finite and enumerated completely in both tiers (17 API routes x 14 classes x 8 configurations today; new routes are picked up from the routing table). Tokens in the classes come from a real create/revoke history on the SQL token repository.",
         design="§3 C09",
     ),
     "C10": dict(
@@ -72,20 +72,20 @@ CHECKS = {
     ),
     "C12": dict(
         engine="apiwalk",
-        technique="breadth-first search over {register(bearer|custom|none), delete, notify with every per-hook outcome in {200,500,transport error,unreadable body}, restart} on two URLs for max_tries 1..3, state = webhooks table + counter model, successor = replay on a fresh SQLite store; call log of a scripted WebhookTargetClient and GET /webhook compared with the model after every step; every outcome sequence of length <=3 additionally through the production HTTP client against a loopback server",
+        technique="breadth-first search over {register(bearer|custom|none), delete, notify with every per-hook outcome in {200,500,transport error,unreadable body}, restart} on two URLs for max_tries 1..3, state = webhooks table + counter model, successor = replay on a fresh SQLite store; call log of a scripted WebhookTargetClient and GET /webhook compared with the model after every step; every outcome sequence of length <=3 additionally through the production HTTP client against a loopback server, and two webhooks of every ordered pair of authorisation kinds served by one production client (both registered / first deleted / first deactivated): each target must receive exactly its own authorisation header and no stray one",
         text="Exhaustive to depth 6 (quick) / 9 (thorough); the evidence says per max_tries whether the state set closed below the depth bound. Events are delivered one at a time, as the statement says.",
         design="§3 C12",
     ),
     "C16": dict(
         engine="apiwalk",
-        technique="complete product enumeration per route of path/query/body alphabets (8 hash forms incl. stale/orphan/genesis/unknown/malformed/10 kB, 11 integer forms, 26 body forms incl. truncated, non-JSON, wrong content type, 5000-element lists) on three store shapes x {auth off, auth on}; oracle: status < 500, exactly one JSON document, 4xx = object with code and message, headers table digest unchanged, engine still answers",
-        text="The grammar is finite and enumerated completely (2790 requests per run). Requests that match no registered route are answered by the framework (plain 404 / redirect) and are counted but not judged. Byte-level HTTP malformation is net/http's.",
+        technique="complete product enumeration per route of path/query/body alphabets (8 hash forms incl. stale/orphan/genesis/unknown/malformed/10 kB, 11 integer forms, 26 body forms incl. truncated, non-JSON, wrong content type, 5000-element lists) on three store shapes x {auth off, admin token, issued non-admin token}; oracle: status < 500, exactly one JSON document, 4xx = object with code and message, headers table digest unchanged, engine still answers",
+        text="The grammar is finite and enumerated completely (4185 requests per quick run; the thorough tier adds all 192 blueprints of 3 headers x 2 arrival orders and every single-character deletion/substitution of one well-formed body per POST route, 374 000 requests). Requests that match no registered route are answered by the framework (plain 404 / redirect) and are counted but not judged. Byte-level HTTP malformation is net/http's.",
         design="§3 C16",
     ),
     "C14": dict(
         engine="domwalk", category="exploration",
-        technique="bounded-exhaustive enumeration: every message shape of the 16 kinds (element counts 0,1,2,limit and limit+1 refused; each scalar over its boundary alphabet) x 5 negotiated protocol versions through WriteMessage/ReadMessage (round trip + byte-identical re-encoding); for every seed frame with <=2 elements every single-bit flip, every truncation, 8 length-field values, every payload bit flip / truncation / varint splice at every position with recomputed checksum, splices between every ordered pair of kinds at every cut, wrong magic, bad checksum, unknown and invalid-UTF-8 command; oracle: no panic, bounded reads, allocation <= payload limit + slack, the four rejection classes return errors; a decoder that kills the process is caught through a per-case progress file",
-        text="Complete within the stated shape and mutation alphabets (about 330 000 decodes per run); raw random bytes and multi-fault mutations are sampling and are not done. The allocation bound is checked under wire.SetLimits(1 MB).",
+        technique="bounded-exhaustive enumeration: every message shape of the 16 kinds (element counts 0,1,2,limit and limit+1 refused; each scalar over its boundary alphabet) x 11 protocol versions (every version at which an encoding changes and its predecessor, 70013 down to 209; fields a version does not carry must come back zero, messages a version does not know must be refused and all others must not) through WriteMessage/ReadMessage (round trip + byte-identical re-encoding); for every seed frame with <=2 elements every single-bit flip (inside the command field: refused unless a known command results), every truncation, 8 length-field values, every payload bit flip / truncation / varint splice at every position with recomputed checksum, splices between every ordered pair of kinds at every cut, wrong magic, bad checksum, unknown and invalid-UTF-8 command; oracle: no panic, bounded reads, allocation <= payload limit + slack, the four rejection classes return errors; a decoder that kills the process is caught through a per-case progress file",
+        text="Complete within the stated shape and mutation alphabets (about 330 000 decodes per quick run; the thorough tier adds every value of every payload byte, every pair of payload bit flips for payloads up to 96 bytes and splices at every pair of cuts, 8 million decodes); raw random bytes are sampling and are not done. The allocation bound is checked under wire.SetLimits(1 MB).",
         design="§3 C14",
     ),
     "C19": dict(
@@ -102,15 +102,15 @@ CHECKS = {
     ),
     "C06": dict(
         engine="netwalk",
-        technique="explicit-state search (BFS with replay) over the P2P environment: each execution is a testing/synctest bubble holding the SQLite-backed services, the real sync engine (legacy p2p.server with its peerHandler, serverPeer listeners, SyncManager.blockHandler, connmgr; or the experimental peer.Peer API) and scripted wire-level nodes over net.Pipe under the fake clock; events {connect, deliver, announce (inv / headers per BIP 130), drop, mute, tick 35/100/200 s}; quiescence barrier synctest.Wait after every event; sync-peer selection owned through an import rewrite of crypto/rand; in EVERY reachable state the deterministic fair continuation (reliable node answers, reconnects, 15 min of clock) must reach the reliable node's best chain; safety oracle on every getheaders sent (locator on the longest chain, descending; stop zero or a checkpoint ahead)",
-        text="Exhaustive to the depth bound per scenario (6-7 events quick, 9-10 thorough; state sets of most scenarios close below it) over 61 scenarios: linear catch-up (reply caps inf/2, one or two nodes, checkpoints on/off, lists mid/two/at-tip, initial store genesis/prefix), announcements by one or two nodes racing with the sync, fork overtaking in one reply with initial stores genesis/main/stale-fork, both engines (experimental: one outbound peer, as its design and the statement say). Two classes of the default engine's sync-peer re-selection are open known findings.",
+        technique="explicit-state search (BFS with replay) over the P2P environment: each execution is a testing/synctest bubble holding the SQLite-backed services, the real sync engine (legacy p2p.server with its peerHandler, serverPeer listeners, SyncManager.blockHandler, connmgr; or the experimental peer.Peer API) and scripted wire-level nodes over net.Pipe under the fake clock; events {connect, deliver, announce (inv / headers per BIP 130), drop, mute, tick 35/100/200 s}; state key = store rows + the engine's private sync state (sync peer and its timers, per-peer candidate flag and believed height, ban table) + per-node queues + fake time; 1/29 of the executions are run twice and compared; quiescence barrier synctest.Wait after every event; sync-peer selection owned through an import rewrite of crypto/rand; in EVERY reachable state the deterministic fair continuation (reliable node answers, mines and announces new blocks, reconnects, 15 min of clock) must reach the reliable node's best chain; safety oracle on every getheaders sent (locator on the longest chain, descending; stop zero or a checkpoint ahead)",
+        text="Exhaustive to the depth bound per scenario (6-7 events quick, 9-10 thorough; state sets of most scenarios close below it) over 74 scenarios: linear catch-up (reply caps inf/2, one or two nodes, checkpoints on/off, lists mid/two/at-tip, initial store genesis/prefix), announcements by one or two nodes racing with the sync, fork overtaking in one reply with initial stores genesis/main/stale-fork, a reliable node that lags when it connects and grows afterwards, the announcement families again with every header older than 24 h (the service never calls itself current), both engines (experimental: one outbound peer, as its design and the statement say). Two classes of the default engine's sync-peer re-selection are open known findings.",
         design="§3 C06, §2 E3",
         note="Trusted: testing/synctest's fake clock and quiescence detection, net.Pipe instead of TCP (one writer goroutine per scripted node because the pipe is unbuffered), the scripted node as the definition of protocol-conformant. Within one event the engine's goroutines run freely; observations are taken only at quiescence.",
     ),
     "C07": dict(
         engine="netwalk",
-        technique="explicit-state search (BFS with replay, synctest bubbles, real engines, scripted nodes) over scenarios with one misbehaving and one honest node: the offending header (forbidden hash, or a header contradicting a checkpoint) at position 1..3 of the misbehaving node's chain, initial store genesis/prefix, checkpoint lists, checkpoints on/off, both engines; events {connect, deliver, tick 35/200/600 s} in every order (both connection orders, reconnects during and after the ban); containment oracle after every event (forbidden hash never stored or served, its descendants only ORPHAN, sender disconnected, banned host refused until the ban duration elapsed and admitted afterwards) and the C06 fair continuation in every state",
-        text="Exhaustive to depth 6 (quick) / 8 (thorough) over 66 scenarios. The experimental engine is covered for the forbidden-header part (its checkpoints come from the network parameters, not from configuration). Checkpoint advance / unbounded requests after the last checkpoint are judged by the request oracle of C06.",
+        technique="explicit-state search (BFS with replay, synctest bubbles, real engines, scripted nodes) over scenarios with one or two misbehaving nodes and one honest node: the offending header (forbidden hash, or a header contradicting a checkpoint) at position 1..3 of the misbehaving node's chain, initial store genesis/prefix, checkpoint lists for both engines, checkpoints on/off; two connections of the misbehaving host with a 60 s ban; two misbehaving nodes with different headers at the checkpoint height; a lighter fork reaching the checkpoint height below a heavy tip; events {connect, deliver, tick 35/200/600 s} in every order (both connection orders, reconnects during and after the ban); containment oracle after every event (forbidden hash never stored or served, its descendants only ORPHAN, sender of a forbidden or checkpoint-contradicting header disconnected - also when that header is STALE, already stored or at the height of a checkpoint passed earlier -, banned host refused exactly while its latest ban runs and admitted afterwards) and the C06 fair continuation in every state",
+        text="Exhaustive to depth 6-7 (quick) / 8-9 (thorough) over 100 scenarios. The experimental engine gets the scenario's checkpoint list through the network parameters it is constructed with. Checkpoint advance / unbounded requests after the last checkpoint are judged by the request oracle of C06.",
         design="§3 C07",
         note="Same trusted base as C06.",
     ),
@@ -123,15 +123,15 @@ CHECKS = {
     ),
     "C11": dict(
         engine="schedwalk",
-        technique="stateless model checking under a controlled scheduler inside testing/synctest bubbles: threads = the submitter (one scheduling point per submission) and one delivery goroutine per (event, channel) spawned by the real notification.Notifier (one scheduling point at its start; quiescence = synctest.Wait); channels = the real WebhooksService over the SQL repository with a scripted client, the real websocket channel with a recording publisher, a recording channel; per-channel behaviour {ok, error, never returns}; DFS by replay over all schedules with global-state memoisation (histories of length 1-2) / preemption bound 1 (length 3); oracle: per channel exactly one event per stored header with all nine fields equal to the stored header, none for duplicate / forbidden / failed submissions, the submitter finishes in every schedule",
+        technique="stateless model checking under a controlled scheduler inside testing/synctest bubbles: threads = the submitter (one scheduling point per submission) and one delivery goroutine per (event, channel) spawned by the real notification.Notifier (one scheduling point at its start; quiescence = synctest.Wait); channels = the real WebhooksService over the SQL repository with a scripted client, the real websocket channel with a recording publisher that keeps the published slice like a broker does, a recording channel; per-channel behaviour {ok, error, never returns}; DFS by replay over all schedules with global-state memoisation (histories of length 1-2) / preemption bound 1 (length 3); oracle: per channel exactly one event per stored header with all nine fields equal to the stored header (and the published bytes unchanged at the end of the execution), none for duplicate / forbidden / failed submissions, the submitter finishes in every schedule",
         text="Exhaustive: 30 histories x 27 behaviour combinations (all schedules) + 5 longer histories x 27 (bounded). A real centrifuge client subscription is not part of the check (the publisher seam is the node's Publish).",
         design="§3 C11",
         note="Trusted: testing/synctest quiescence; the scripted sinks. The insert failure is injected by a decorator on repository.Headers for one hash.",
     ),
     "C18": dict(
         engine="netwalk",
-        technique="explicit-state search with replay inside testing/synctest bubbles: (a) BFS over {add(inbound|outbound|persistent, host1|host2), done, ban, clock advance ban/2 and ban} on a real peerState through the real handleAddPeerMsg / handleDonePeerMsg / handleBanPeerMsg (in-package driver), state = multiset of admitted (kind, host) + ban buckets, oracle = counting model at the production limits, plus a directed run to the total limit; (b) BFS over environment answers {dial success, dial refusal, disconnect(conn), remove(conn), retry timer} on the real connmgr.ConnManager with scripted GetNewAddress / Dial / OnConnection for target 1..3 and two address policies, invariant 'open connections <= target' in every state and the fair continuation (every dial succeeds) must reach exactly the target, plus the directed 26-refusals-of-one-address run",
-        text="Exhaustive to depth 8 (admission) / 7 (connection manager) in the quick tier, 10 / 9 thorough; state sets close by deduplication. addrmgr's address selection is not explored (GetNewAddress is scripted).",
+        technique="explicit-state search with replay inside testing/synctest bubbles: (a) BFS over {add(inbound|outbound|persistent, host1|host2), done, ban, clock advance ban/2 and ban} on a real peerState through the real handleAddPeerMsg / handleDonePeerMsg / handleBanPeerMsg (in-package driver), state = multiset of admitted (kind, host) + ban buckets, oracle = counting model at the production limits, plus a directed run to the total limit; (b) BFS over environment answers {dial success, dial refusal, disconnect(conn), remove(conn), retry timer} on the real connmgr.ConnManager with scripted GetNewAddress / Dial / OnConnection for targets 1, 2, 3, 8 (thorough 1..8) and two address policies, state key incl. the handler's private pending/conns maps and the implementation's ban table, invariant 'open connections <= target' in every state and the fair continuation (every dial succeeds) must reach exactly the target, plus the directed 26-refusals-of-one-address run",
+        text="Exhaustive to depth 8 (admission) / 9 (connection manager) in the quick tier, 10 / 11 thorough; state sets close by deduplication. addrmgr's address selection is not explored (GetNewAddress is scripted).",
         design="§3 C18",
         note="Trusted: testing/synctest fake clock; peers built in-package as they look after a version exchange (no sockets).",
     ),
